@@ -1,4 +1,387 @@
 /-
-  C12 — substitution fails only with SubstitutionError (statements are being added).
+  C12 — substitution fails only with SubstitutionError, and is idempotent.
 -/
 import D42.Model.Subst
+import D42.Props.C14
+
+namespace D42
+
+/-! ### helpers -/
+
+theorem fromNativeS_error_kind (v : PyVal) (e : PyExc) (h : fromNativeS v = .error e) : e = .substitutionError := by
+  unfold fromNativeS at h
+  split at h
+  · cases h
+  · cases h; rfl
+
+theorem fromNativeListS_error_kind : ∀ (xs : List PyVal) (e : PyExc),
+    fromNativeListS xs = .error e → e = .substitutionError
+  | [], e, h => by simp [fromNativeListS] at h
+  | x :: xs, e, h => by
+    simp only [fromNativeListS, bind, Except.bind] at h
+    cases hx : fromNativeS x with
+    | error e1 =>
+      rw [hx] at h; cases h
+      exact fromNativeS_error_kind x _ hx
+    | ok a =>
+      rw [hx] at h
+      cases hr : fromNativeListS xs with
+      | error e2 =>
+        rw [hr] at h; cases h
+        exact fromNativeListS_error_kind xs _ hr
+      | ok b => rw [hr] at h; cases h
+
+theorem mapM_except_error {α β} (f : α → Except PyExc β) : ∀ (l : List α) (e : PyExc),
+    l.mapM f = .error e → ∃ x ∈ l, f x = .error e
+  | [], e, h => by simp [pure, Except.pure] at h
+  | x :: xs, e, h => by
+    rw [List.mapM_cons] at h
+    simp only [bind, Except.bind] at h
+    cases hx : f x with
+    | error e1 =>
+      rw [hx] at h; cases h
+      exact ⟨x, by simp, hx⟩
+    | ok a =>
+      rw [hx] at h
+      cases hr : xs.mapM f with
+      | error e2 =>
+        rw [hr] at h; cases h
+        obtain ⟨y, hy, hfy⟩ := mapM_except_error f xs _ hr
+        exact ⟨y, by simp [hy], hfy⟩
+      | ok b => rw [hr] at h; cases h
+
+theorem substFresh_error_kind (kvs : List (PyKey × PyVal)) (relaxed : Bool) (e : PyExc)
+    (h : substFresh kvs relaxed = .error e) : e = .substitutionError := by
+  unfold substFresh at h
+  split at h
+  · cases h; rfl
+  · simp only [bind, Except.bind] at h
+    split at h
+    · rename_i e1 hm
+      cases h
+      obtain ⟨x, _, hx⟩ := mapM_except_error _ _ _ hm
+      cases hf : fromNativeS x.2 with
+      | error e2 =>
+        rw [hf] at hx; cases hx
+        exact fromNativeS_error_kind _ _ hf
+      | ok a => rw [hf] at hx; simp [pure, Except.pure] at hx
+    · simp [pure, Except.pure] at h
+
+/-- "substituting into `s` fails only with SubstitutionError" -/
+def SubstEK (env : Env) (s : Schema) : Prop :=
+  ∀ (v : PyVal) (e : PyExc), subst env s v = .error e → e = .substitutionError
+
+theorem substAll_error_kind (env : Env) (t : Schema) (ih : SubstEK env t) : ∀ (xs : List PyVal) (e : PyExc),
+    substAll env t xs = .error e → e = .substitutionError
+  | [], e, h => by simp [substAll] at h
+  | x :: xs, e, h => by
+    simp only [substAll, bind, Except.bind] at h
+    cases hx : subst env t x with
+    | error e1 =>
+      rw [hx] at h; cases h
+      exact ih x _ hx
+    | ok a =>
+      rw [hx] at h
+      cases hr : substAll env t xs with
+      | error e2 =>
+        rw [hr] at h; cases h
+        exact substAll_error_kind env t ih xs _ hr
+      | ok b => rw [hr] at h; simp [pure, Except.pure] at h
+
+theorem substZip_error_kind (env : Env) : ∀ (ss : List Schema) (_ : ∀ s ∈ ss, SubstEK env s) (xs : List PyVal) (e : PyExc),
+    substZip env ss xs = .error e → e = .substitutionError
+  | [], _, xs, e, h => by simp [substZip] at h
+  | _ :: _, _, [], e, h => by simp [substZip] at h; exact h.symm
+  | s :: ss, ih, x :: xs, e, h => by
+    simp only [substZip, bind, Except.bind] at h
+    cases hx : subst env s x with
+    | error e1 =>
+      rw [hx] at h; cases h
+      exact ih s (by simp) x _ hx
+    | ok a =>
+      rw [hx] at h
+      cases hr : substZip env ss xs with
+      | error e2 =>
+        rw [hr] at h; cases h
+        exact substZip_error_kind env ss (fun s hs => ih s (by simp [hs])) xs _ hr
+      | ok b => rw [hr] at h; simp [pure, Except.pure] at h
+
+theorem substElems_error_kind (env : Env) (ss : List Schema) (ih : ∀ s ∈ ss, SubstEK env s) (xs : List PyVal)
+    (start : Nat) (e : PyExc) (h : substElems env ss xs start = .error e) : e = .substitutionError := by
+  simp only [substElems, bind, Except.bind] at h
+  cases h1 : substZip env ss (xs.drop start) with
+  | error e1 => rw [h1] at h; cases h; exact substZip_error_kind env ss ih _ _ h1
+  | ok a =>
+    rw [h1] at h
+    cases h2 : fromNativeListS (xs.drop (start + ss.length)) with
+    | error e2 => rw [h2] at h; cases h; exact fromNativeListS_error_kind _ _ h2
+    | ok b =>
+      rw [h2] at h
+      cases h3 : fromNativeListS (xs.take start) with
+      | error e3 => rw [h3] at h; cases h; exact fromNativeListS_error_kind _ _ h3
+      | ok c => rw [h3] at h; simp [pure, Except.pure] at h
+
+theorem substFields_error_kind (env : Env) : ∀ (fs : List (PyKey × Bool × Schema)) (_ : ∀ f ∈ fs, SubstEK env f.2.2)
+    (kvs : List (PyKey × PyVal)) (e : PyExc), substFields env fs kvs = .error e → e = .substitutionError
+  | [], _, kvs, e, h => by simp [substFields] at h
+  | (k, opt, s) :: fs, ih, kvs, e, h => by
+    simp only [substFields, bind, Except.bind] at h
+    split at h
+    · rename_i e1 hm
+      cases h
+      split at hm
+      · simp [pure, Except.pure] at hm
+      · rename_i x _ _
+        cases hx : subst env s x with
+        | error e2 => rw [hx] at hm; cases hm; exact ih (k, opt, s) (by simp) x _ hx
+        | ok a => rw [hx] at hm; simp [pure, Except.pure] at hm
+      · simp [pure, Except.pure] at hm
+    · cases hr : substFields env fs kvs with
+      | error e2 =>
+        rw [hr] at h; cases h
+        exact substFields_error_kind env fs (fun f hf => ih f (by simp [hf])) kvs _ hr
+      | ok b => rw [hr] at h; simp [pure, Except.pure] at h
+
+theorem bind_pure_error {α β} (x : Except PyExc α) (f : α → β) (e : PyExc)
+    (h : (do let a ← x; pure (f a)) = Except.error e) : x = .error e := by
+  cases x with
+  | error e1 => simpa [bind, Except.bind] using h
+  | ok a => simp [bind, Except.bind, pure, Except.pure] at h
+
+theorem dictBody_error_kind (env : Env) (fs : List (PyKey × Bool × Schema)) (kvs : List (PyKey × PyVal))
+    (ell : Option Nat) (e : PyExc) (ih : ∀ f ∈ fs, SubstEK env f.2.2)
+    (h : (do
+        let fs' ← substFields env fs kvs
+        if (kvs.any fun kv => !hasField kv.fst fs) = true then Except.error PyExc.substitutionError
+          else pure (Schema.dict (some fs') ell)) = Except.error e) : e = .substitutionError := by
+  cases hf : substFields env fs kvs with
+  | error e1 =>
+    rw [hf] at h; simp only [bind, Except.bind] at h; cases h
+    exact substFields_error_kind env fs ih kvs _ hf
+  | ok a =>
+    rw [hf] at h; simp only [bind, Except.bind] at h
+    split at h
+    · cases h; rfl
+    · simp [pure, Except.pure] at h
+
+mutual
+theorem subst_ek (env : Env) : ∀ (s : Schema), SubstEK env s
+  | .scalar k => by
+    intro v e h
+    rw [subst] at h
+    split at h
+    · cases h
+    · cases h; rfl
+  | .listU L => by
+    intro v e h
+    cases v
+    case list xs =>
+      simp only [subst] at h
+      repeat' split at h
+      all_goals first | (cases h; rfl) | (cases h) | skip
+      exact fromNativeListS_error_kind _ _ (bind_pure_error _ _ _ h)
+    all_goals (simp [subst, validateP] at h; exact h.symm)
+  | .listT t L => by
+    intro v e h
+    cases v
+    case list xs =>
+      simp only [subst] at h
+      repeat' split at h
+      all_goals first | (cases h; rfl) | (cases h) | skip
+      exact substAll_error_kind env t (subst_ek env t) _ _ (bind_pure_error _ _ _ h)
+    all_goals (simp [subst, validateP] at h; exact h.symm)
+  | .listE lead elems trail L => by
+    intro v e h
+    cases v
+    case list xs =>
+      simp only [subst] at h
+      repeat' split at h
+      all_goals first | (cases h; rfl) | (cases h) | skip
+      all_goals exact substElems_error_kind env elems (subst_ek_list env elems) _ _ _ (bind_pure_error _ _ _ h)
+    all_goals (simp [subst, validateP] at h; exact h.symm)
+  | .dict none ell => by
+    intro v e h
+    cases v
+    case dict kvs =>
+      simp only [subst] at h
+      split at h
+      · cases h; rfl
+      · exact substFresh_error_kind _ _ _ h
+    all_goals (simp [subst, validateP] at h; exact h.symm)
+  | .dict (some []) (some pos) => by
+    intro v e h
+    cases v
+    case dict kvs =>
+      simp only [subst] at h
+      split at h
+      · cases h; rfl
+      · exact substFresh_error_kind _ _ _ h
+    all_goals (simp [subst, validateP] at h; exact h.symm)
+  | .dict (some []) none => by
+    intro v e h
+    cases v
+    case dict kvs =>
+      simp only [subst] at h
+      split at h
+      · cases h; rfl
+      split at h
+      · cases h; rfl
+      exact dictBody_error_kind env _ _ _ _ (by simp) h
+    all_goals (simp [subst, validateP] at h; exact h.symm)
+  | .dict (some (f :: fs)) ell => by
+    intro v e h
+    cases v
+    case dict kvs =>
+      simp only [subst] at h
+      split at h
+      · cases h; rfl
+      split at h
+      · cases h; rfl
+      exact dictBody_error_kind env _ _ _ _ (subst_ek_fields env (f :: fs)) h
+    all_goals (simp [subst, validateP] at h; exact h.symm)
+  | .any none => by
+    intro v e h
+    simp only [subst] at h
+    exact fromNativeS_error_kind _ _ (bind_pure_error _ _ _ h)
+  | .any (some ts) => by
+    intro v e h
+    simp only [subst] at h
+    repeat' split at h
+    all_goals first | (cases h; rfl) | (cases h) | skip
+  | .alias n t => by
+    intro v e h
+    simp only [subst] at h
+    exact subst_ek env t v e (bind_pure_error _ _ _ h)
+  | .custom t => by
+    intro v e h
+    simp only [subst] at h
+    exact subst_ek env t v e (bind_pure_error _ _ _ h)
+theorem subst_ek_list (env : Env) : ∀ (ss : List Schema), ∀ s ∈ ss, SubstEK env s
+  | [] => by simp
+  | s :: ss => by
+    intro s' hs'
+    rcases List.mem_cons.1 hs' with h | h
+    · rw [h]; exact subst_ek env s
+    · exact subst_ek_list env ss s' h
+theorem subst_ek_fields (env : Env) : ∀ (fs : List (PyKey × Bool × Schema)), ∀ f ∈ fs, SubstEK env f.2.2
+  | [] => by simp
+  | (k, o, s) :: fs => by
+    intro f hf
+    rcases List.mem_cons.1 hf with h | h
+    · rw [h]; exact subst_ek env s
+    · exact subst_ek_fields env fs f h
+end
+
+/-- **C12 (error kind).** For every schema and *every* value — conforming or not, convertible or not,
+    with `...` placeholders anywhere — the substitution model fails only with SubstitutionError.
+    (In particular the `unmodelled` escape of the model is unreachable.) -/
+theorem subst_error_kind (env : Env) (s : Schema) (v : PyVal) (e : PyExc)
+    (h : subst env s v = .error e) : e = .substitutionError :=
+  subst_ek env s v e h
+
+theorem bind_pure_ok {α β} (x : Except PyExc α) (f : α → β) (r : β)
+    (h : (do let a ← x; pure (f a)) = Except.ok r) : ∃ a, x = .ok a ∧ r = f a := by
+  cases x with
+  | error e1 => simp [bind, Except.bind] at h
+  | ok a =>
+    simp only [bind, Except.bind, pure, Except.pure] at h
+    cases h
+    exact ⟨a, rfl, rfl⟩
+
+/-- the result of substituting into `any` always has at least one alternative (fix F3) -/
+theorem subst_any_nonempty (env : Env) (ts : Option (List Schema)) (v : PyVal) (r : Schema)
+    (h : subst env (.any ts) v = .ok r) : ∃ a as, r = .any (some (a :: as)) := by
+  cases ts with
+  | none =>
+    simp only [subst] at h
+    obtain ⟨a, _, rfl⟩ := bind_pure_ok _ _ _ h
+    exact ⟨a, [], rfl⟩
+  | some ts =>
+    simp only [subst] at h
+    split at h
+    · cases h
+    · cases hs : substAlts env ts v with
+      | nil => rw [hs] at h; cases h
+      | cons a as =>
+        rw [hs] at h
+        simp only [] at h
+        cases h
+        exact ⟨a, as, rfl⟩
+
+/-- a successful substitution into an element list yields an exact list (no `...` markers), unless the
+    list was untyped / typed (then the markers are those of the value) -/
+theorem subst_listE_exact (env : Env) (lead trail : Bool) (es : List Schema) (L : LenP) (v : PyVal) (r : Schema)
+    (h : subst env (.listE lead es trail L) v = .ok r) : ∃ es', r = .listE false es' false L := by
+  cases v
+  case list xs =>
+    simp only [subst] at h
+    repeat' split at h
+    all_goals first | (cases h; exact ⟨_, rfl⟩) | (cases h) | skip
+    all_goals (obtain ⟨a, _, rfl⟩ := bind_pure_ok _ _ _ h; exact ⟨a, rfl⟩)
+  all_goals (simp [subst, validateP] at h)
+
+theorem withValue_idem (k : ScalarS) (v : PyVal) : (k.withValue v).withValue v = k.withValue v := by
+  cases k <;> cases v <;> rfl
+
+theorem PyFloat.eq_self (f : PyFloat) (h : f ≠ .nan) : PyFloat.eq f f = true := by
+  cases f <;> simp [PyFloat.eq] at *
+
+theorem floatValueOk_self (env : Env) (f : PyFloat) (prec : Option Nat) (h : f ≠ .nan) :
+    floatValueOk env f f prec = true := by
+  cases prec with
+  | none => simp [floatValueOk, isclose, PyFloat.eq_self f h]
+  | some pr =>
+    simp only [floatValueOk, eqAtPrecision]
+    cases pyRound (fscale env f pr) <;> simp [PyFloat.eq_self f h]
+
+theorem validateScalar_withValue (env : Env) (k : ScalarS) (v : PyVal) (p : Path) (hn : NoNaN v)
+    (h : validateScalar env k v p = []) : validateScalar env (k.withValue v) v p = [] := by
+  cases k with
+  | none => cases v <;> simp_all [validateScalar, ScalarS.withValue]
+  | bool x => cases v <;> simp_all [validateScalar, ScalarS.withValue]
+  | int x mn mx =>
+    cases hv : asInt v with
+    | none => simp [validateScalar, hv] at h
+    | some n =>
+      have hw : (ScalarS.int x mn mx).withValue v = .int (some n) mn mx := by
+        cases v <;> simp_all [ScalarS.withValue]
+      rw [hw]
+      simp only [validateScalar, hv] at h ⊢
+      cases x with
+      | none => simpa using h
+      | some y =>
+        simp only [] at h
+        split at h
+        · simp at h
+        · rename_i hy
+          simp at hy; subst hy; simpa using h
+  | float x mn mx pr d1 d2 =>
+    cases v <;> simp_all [validateScalar, ScalarS.withValue]
+    case float f =>
+      have hf : f ≠ .nan := by intro hf; subst hf; simp [NoNaN] at hn
+      simp only [floatValueOk_self env f pr hf, if_true]
+      cases x <;> simp_all
+      split at h <;> simp_all
+  | str x L al sub pat =>
+    cases v <;> simp_all [validateScalar, ScalarS.withValue]
+    case str s =>
+      cases x <;> simp_all [strErrs]
+      split at h <;> simp_all
+  | bytes x => cases v <;> simp_all [validateScalar, ScalarS.withValue]
+  | uuid4 x => cases v <;> simp_all [validateScalar, ScalarS.withValue] <;> (split at h <;> simp_all)
+  | datetime x => cases v <;> simp_all [validateScalar, ScalarS.withValue]
+  | date x => cases v <;> simp_all [validateScalar, ScalarS.withValue]
+
+/-- **C12 (idempotent), scalars.** Substituting the same value again into the result of a scalar
+    substitution succeeds and returns the same schema (floats: not NaN — K6). -/
+theorem subst_idempotent_scalar (env : Env) (k : ScalarS) (v : PyVal) (r : Schema)
+    (hn : NoNaN v) (h : subst env (.scalar k) v = .ok r) : subst env r v = .ok r := by
+  rw [subst] at h
+  split at h
+  · rename_i hv
+    cases h
+    rw [subst, validateScalar_withValue env k v [] hn (by simpa using hv), withValue_idem]
+    simp
+  · cases h
+
+end D42
